@@ -38,7 +38,7 @@ GEN = common.LEAN / 'PygyroVerif' / 'Generated'
 def regenerate(chk):
     """run the translator (stdlib only) on the repo under test, then build Props/C18 (not part of the library root)"""
     p = subprocess.run([sys.executable, str(common.VERIF / 'harness' / 'translate_driver.py'), '--repo', str(common.REPO),
-                        '--out', str(GEN)], capture_output=True, text=True)
+                        '--out', common.generated_dir(chk)], capture_output=True, text=True)
     chk.notes['translator'] = (p.stdout + p.stderr).strip()[-400:]
     if p.returncode != 0:
         chk.proof_broken.append({'theorem': 'translator (fullSimulation.py has a shape the translator does not recognise)',
@@ -49,7 +49,7 @@ def regenerate(chk):
         if b.returncode != 0:
             chk.proof_broken.append({'theorem': 'lake build PygyroVerif.Props.C18 (theorems about the generated driver script)',
                                      'log': (b.stdout + b.stderr)[-3000:]})
-    return json.load(open(GEN / 'TimeLoop.json'))
+    return json.load(open(os.path.join(common.generated_dir(chk), 'TimeLoop.json')))
 
 
 # ------------------------------------------------------------------------------------------------
